@@ -162,3 +162,57 @@ Definition emit_rest (emit_types : bool) (doc : str) (ps : list (str * pentry)) 
       else if Nat.eqb (count_char NL cand) 0 then (if c =? NL then cand else NL :: cand)
       else cand
   end.
+
+(* ---- indent_level > 0 (docstrings inside functions and classes): the tail of cdd/docstring/emit.py:docstring -------------
+   prev_nl / next_nl skip leading whitespace-only lines; the first real line and the rest (splitlines) get the tab prefix (also the
+   empty ones: emit_separating_tab); several lines are wrapped in a leading newline and a trailing newline + tab.
+   splitlines is modelled for texts whose only line break character is "\n". *)
+Definition TAB : str := [SP; SP; SP; SP].
+
+(* the while loop: returns (line, next_nl) *)
+Fixpoint skip_blank_lines (fuel : nat) (cand : str) (prev_nl next_nl : Z) : str * Z :=
+  match fuel with
+  | O => (slice_from cand prev_nl, slen cand)
+  | S f =>
+      if (next_nl <? 0)%Z then (slice_from cand prev_nl, slen cand)          (* while-else *)
+      else
+        let line := slice cand prev_nl next_nl in
+        if negb (isspace line) then (line, next_nl)
+        else skip_blank_lines f cand (next_nl + 1)
+               (match find [NL] (slice_from cand (next_nl + 1)) with Zneg _ => (-1)%Z | z => (z + next_nl + 1)%Z end)
+  end.
+
+Definition splitlines_nl (s : str) : list str :=
+  match s with
+  | [] => []
+  | _ => let l := split_char NL s in if ends_nl s then removelast l else l
+  end.
+
+Definition nth_char (s : str) (i : Z) : option char := nth_error s (Z.to_nat i).
+
+Definition indent_doc (indent_level : nat) (cand : str) : str :=
+  match indent_level with
+  | O => cand
+  | _ =>
+    let tabs := concat (repeat TAB indent_level) in
+    let '(line, next_nl) := skip_blank_lines (S (length cand)) cand 0 (find [NL] cand) in
+    let n := slen cand in
+    let start := if (n =? next_nl)%Z || (((next_nl + 1) <? n)%Z && negb (match nth_char cand (next_nl + 1) with Some c => c =? NL | None => false end))
+                 then next_nl else (next_nl + 1)%Z in
+    let lines := (match line with [] => [] | _ => [line] end) ++ splitlines_nl (slice_from cand start) in
+    let joined := join [NL] (map (fun l => tabs ++ l) lines) in
+    if Nat.ltb 1 (length lines)
+    then (if startswith tabs joined then [NL] else []) ++ joined ++ (if ends_nl joined then [] else [NL] ++ tabs)
+    else joined
+  end.
+
+Definition emit_rest_indented (indent_level : nat) (emit_types : bool) (doc : str) (ps : list (str * pentry)) (ret : option pentry) : str :=
+  let ar := args_returns emit_types ps ret in
+  let cand := header_args_footer_to_str doc (if isspace ar then [] else ar) [] in
+  match cand with
+  | [] => []
+  | c :: _ =>
+      if isspace cand then []
+      else if Nat.eqb (count_char NL cand) 0 then (if c =? NL then cand else NL :: cand)
+      else indent_doc indent_level cand
+  end.
